@@ -79,15 +79,24 @@ loop1 = Unit(
 )
 loop1.key_suffix = "pass-loop-1"
 
+def _abs_hook(name):
+    """an abstraction step as a function of the TEXT only (its other arguments are configuration that does not change during one call of
+    format_code): the contract must not depend on how that configuration is spelled at the call site (`minimum_indent == 0` or a local)"""
+    def hook(eng, args, kw, env, pc, node):
+        from pyvc.values import VStr, STR
+        return VStr(eng.uf(name, [STR], STR)(args[0].t))
+    return hook
+
+
 section = Unit(
     "main", "format_code", slice=slice_abstraction_section,
     params={"source": "str", "preserve": "obj", "content_history": ("set", "str"), "minimum_indent": "int", "MAX_FILE_PASSES": "int"},
     requires=[("first-loop-stopped-at-a-seen-text", "source in content_history"), ("budget-positive", "MAX_FILE_PASSES >= 1")],
     ensures=[("no-further-pass-when-the-abstractions-change-nothing",
-              "implies(abstractions.overused_constant(old(source), root_is_static=minimum_indent == 0) == old(source)"
-              " and fixes.simplify_assign_immediate_return(old(source)) == old(source), source == old(source))")],
+              "implies(hoisted(old(source)) == old(source) and simplified(old(source)) == old(source), source == old(source))")],
     loops={0: {"inv": ["True"]}},
-    calls=CALLS, props=("C09",),
+    calls=dict(CALLS, **{"abstractions.overused_constant": _abs_hook("overused_constant_of"), "fixes.simplify_assign_immediate_return": _abs_hook("simplify_assign_immediate_return_of")}),
+    ghost={"hoisted": _abs_hook("overused_constant_of"), "simplified": _abs_hook("simplify_assign_immediate_return_of")}, props=("C09",),
 )
 section.key_suffix = "abstraction-section"
 
